@@ -1,4 +1,5 @@
 import CoclsModel.MutexProofs
+import CoclsModel.MutexPtrProofs
 /-!
 # C07 — coroutine mutex: mutual exclusion, exactly-once grant (property theorems)
 
@@ -394,3 +395,168 @@ example : TGuarded cfgEx 100 (init cfgEx) schedB ∧ Owner (trun cfgEx 100 (init
     (trun cfgEx 100 (init cfgEx) schedB).grantReqs = [(0, 0), (1, 0)] := by decide
 
 end Cocls.Mutex
+
+/-!
+# C07 at pointer level (`MutexPtr.lean`, `MutexPtrProofs.lean`): nobody touches a node it no longer owns
+
+The list-level model cannot say what happens to the `awaiter::_next` field and the awaiter object of a request: a list has
+no dangling links.  The pointer-level model has the links, the ghost `live` (a request node is alive from the segment that
+sets it up until its owner, granted the lock, continues) and the ghost access log `acc` of every activity.  It is tied to
+the real header by the suite `ptr-level` of `checks/c08.py` (pointer digest after every operation) and refines the list-level
+model (`c08_ptr_refines_list`).  Quantifier: every configuration `c`, every loop fuel `wf ≥ c.n`, every activity list
+permitted by `canRun` (every schedule of enabled OS threads for `c.WFT`), any thread `t` for the next activity.
+-/
+namespace Cocls.MutexPtr
+open Cocls.Mutex (Elem Seen Flavour Rel Round AKind Cfg Pc TMain Ev Outcome upd nodesL nodesOf seenOf Inv Listed Owner
+  Waiting canRun cfgEx runP runA runB runN runZ sP sA sB sN sZ)
+variable {c : Cfg}
+
+/-- **No access to a dead node, to null or to the doorman.**  Along every permitted activity list and along every schedule
+    of enabled OS threads the ghost flag `viol` stays clear: every `_next` read/write of `subscribe`, of the loop of
+    `build_queue`, of `unlock`, and the read of the awaiter by `resume()`, touches a request node that is alive at that
+    moment. -/
+theorem c07_no_dead_access_ptr (wf : Nat) (hwf : c.n ≤ wf) :
+    (∀ l, Mutex.Guarded c (Mutex.init c) l → (arun c wf (init c) l).viol = false) ∧
+    (c.WFT → ∀ fuel ts, Mutex.TGuarded c fuel (Mutex.init c) ts → (trun c wf fuel (init c) ts).viol = false) :=
+  ⟨fun l hg => (repr_run wf hwf l hg).2.noViol, fun hw fuel ts hg => (trun_init_sim hw wf hwf fuel ts hg).1.2.noViol⟩
+
+example : (arun cfgEx 3 (init cfgEx) runZ).viol = false ∧ (trun cfgEx 3 100 (init cfgEx) Mutex.schedZ).viol = false := by decide
+
+/-- **The requester never touches its node after the publishing CAS.**  Every node access of the next activity of `a` is
+    made while `a` is inside `subscribe` (pc `sub`: the plain writes *before* the CAS, on its own node) — or touches a node
+    of *another* agent (the owner walking / popping the nodes of waiting requesters).  At the pcs of a published request
+    (`parked`, `waitFlag`, `blocked`, `build`) the activity has no node access at all; neither has the activity that follows
+    a hand-over (`relDone`): the former owner never touches the node again. -/
+theorem c07_no_touch_after_publish_ptr (wf : Nat) (hwf : c.n ≤ wf) (l : List (Nat × Nat))
+    (hg : Mutex.Guarded c (Mutex.init c) l) (t a : Nat) :
+    (∀ x ∈ (agentStep c wf (arun c wf (init c) l) t a).1.acc, x.agent = a ∧
+      ((∃ p, (Mutex.arun c (Mutex.init c) l).pc a = Pc.sub p) ∨ ∀ k, x.node ≠ Seen.node a k)) ∧
+    ((Mutex.arun c (Mutex.init c) l).pc a = Pc.parked ∨ (Mutex.arun c (Mutex.init c) l).pc a = Pc.waitFlag ∨
+      (Mutex.arun c (Mutex.init c) l).pc a = Pc.blocked ∨ (Mutex.arun c (Mutex.init c) l).pc a = Pc.build ∨
+      (Mutex.arun c (Mutex.init c) l).pc a = Pc.relDone → (agentStep c wf (arun c wf (init c) l) t a).1.acc = []) := by
+  have hR := repr_run wf hwf l hg
+  have hs := Mutex.reachable_of_run c l hg
+  have hI := Mutex.inv_reachable hs
+  have hq : (Mutex.arun c (Mutex.init c) l).queue.length ≤ wf := by have := queue_length_le hs; omega
+  generalize arun c wf (init c) l = ps at *
+  generalize Mutex.arun c (Mutex.init c) l = ls at *
+  constructor
+  · intro x hx
+    obtain ⟨h1, h2⟩ := agentStep_acc wf hR hI hq t a x hx
+    refine ⟨h1, ?_⟩
+    rcases h2 with ⟨h, _⟩ | ⟨hown, n, hn, hm⟩
+    · exact Or.inl h
+    · right
+      intro k hk
+      rw [hn] at hk
+      injection hk with e1 _
+      have hl := inv_listed_of_mem hI (Or.inl (e1 ▸ hm))
+      rcases hl with hw | hb
+      · revert hw hown
+        unfold Owner
+        generalize ls.pc a = p
+        generalize ls.flag a = f
+        cases p <;> cases f <;> simp [Mutex.isOwner, Mutex.isWaiting]
+      · have := (hI.bld a hb).2
+        rw [this] at hm; cases hm
+  · intro hpc
+    apply Classical.byContradiction
+    intro hne
+    have := agentStep_acc_pc wf hR hI hq t a hne
+    rcases this with ⟨p, h⟩ | h | h | h | h <;> rcases hpc with h' | h' | h' | h' | h' <;> rw [h] at h' <;> cases h'
+
+/- coroutine 1 of scenario `runP` is parked behind owner 0: its node is linked and alive, and no activity of 1 touches it -/
+example : sP.pc 1 = Pc.parked ∧ (arun cfgEx 3 (init cfgEx) runP).next (2, 0) = Seen.node 1 0 ∧
+    (arun cfgEx 3 (init cfgEx) runP).live (1, 0) = true ∧
+    (agentStep cfgEx 3 (arun cfgEx 3 (init cfgEx) runP) 1 1).1.acc = [] := by decide
+/- the last activity of 1 inside `subscribe` (its publishing CAS) wrote `_next` of its own node, before the CAS -/
+example : (arun cfgEx 3 (init cfgEx) (runP.take 4)).acc = [⟨1, Seen.node 1 0, Field.next, true⟩] ∧
+    (arun cfgEx 3 (init cfgEx) (runP.take 3)).acc =
+      [⟨1, Seen.node 1 0, Field.body, true⟩, ⟨1, Seen.node 1 0, Field.next, true⟩] := by decide
+
+/-- **`unlock` unlinks the new owner before resuming it and never touches it afterwards.**  When the next activity of `x`
+    hands the lock to `b` (`grantee … x = some b`), its node accesses are: those of the `build_queue` loop (if its exchange
+    ended the previous segment), then exactly `read head->_next; write head->_next = nullptr; read head (resume)` on the node
+    `(b, k)` of `b`'s current request, in this order.  Afterwards `_next` of that node is null, the node is still alive (it
+    dies only when `b` itself continues), `x` is at `relDone`, and the next activity of `x` touches no node. -/
+theorem c07_unlock_unlinks_before_resume_ptr (wf : Nat) (hwf : c.n ≤ wf) (l : List (Nat × Nat))
+    (hg : Mutex.Guarded c (Mutex.init c) l) (t x b : Nat) (hx : canRun (Mutex.arun c (Mutex.init c) l) x = true)
+    (hgr : Mutex.grantee c (Mutex.arun c (Mutex.init c) l) x = some b) :
+    ∃ (k : Nat) (w : List Node),
+      (agentStep c wf (arun c wf (init c) l) t x).1.acc = walkAcc x w ++ popAcc x b k ∧
+      (agentStep c wf (arun c wf (init c) l) t x).1.next (b, k) = Seen.null ∧
+      (agentStep c wf (arun c wf (init c) l) t x).1.live (b, k) = true ∧
+      k = keyOf c (arun c wf (init c) l) b ∧
+      (agentStep c wf (arun c wf (init c) l) t x).1.pc x = Pc.relDone ∧
+      ∀ t', (agentStep c wf (agentStep c wf (arun c wf (init c) l) t x).1 t' x).1.acc = [] := by
+  have hR := repr_run wf hwf l hg
+  have hs := Mutex.reachable_of_run c l hg
+  have hq : (Mutex.arun c (Mutex.init c) l).queue.length ≤ wf := by have := queue_length_le hs; omega
+  obtain ⟨k, w, h1, h2, h3, h4, h5⟩ := handover_step wf hR (Mutex.inv_reachable hs) hq t x b hgr
+  refine ⟨k, w, h1, h2, h3, h4, h5, fun t' => ?_⟩
+  have hl : Mutex.Guarded c (Mutex.init c) (l ++ [(t, x)]) :=
+    (Mutex.guarded_append l (Mutex.init c) [(t, x)]).2 ⟨hg, hx, trivial⟩
+  have h := (c07_no_touch_after_publish_ptr wf hwf (l ++ [(t, x)]) hl t' x).2
+  have e1 : arun c wf (init c) (l ++ [(t, x)]) = (agentStep c wf (arun c wf (init c) l) t x).1 := by
+    simp [arun, List.foldl_append]
+  have e2 : Mutex.arun c (Mutex.init c) (l ++ [(t, x)]) = (Mutex.agentStep c (Mutex.arun c (Mutex.init c) l) t x).1 := by
+    simp [Mutex.arun, List.foldl_append]
+  rw [e1, e2] at h
+  apply h
+  right; right; right; right
+  have := (agentStep_sim wf hR (Mutex.inv_reachable hs) hq t x).2.1
+  rw [this]
+  exact h5
+
+/- `pA → pA'` (scenario `runA`, owner 0 at `relHand`): the loop moves n2.0, n1.0; then n1.0 is read, cleared, resumed -/
+example : Mutex.grantee cfgEx sA 0 = some 1 ∧
+    (agentStep cfgEx 3 (arun cfgEx 3 (init cfgEx) runA) 0 0).1.acc = walkAcc 0 [(2, 0), (1, 0)] ++ popAcc 0 1 0 ∧
+    (agentStep cfgEx 3 (arun cfgEx 3 (init cfgEx) runA) 0 0).1.next (1, 0) = Seen.null ∧
+    (agentStep cfgEx 3 (arun cfgEx 3 (init cfgEx) runA) 0 0).1.live (1, 0) = true := by decide
+
+/-- **No two agents' next segments touch the same node** (race freedom on the plain node fields at interleaving level):
+    for `a ≠ b`, whatever threads run them. -/
+theorem c07_no_conflict_ptr (wf : Nat) (hwf : c.n ≤ wf) (l : List (Nat × Nat)) (hg : Mutex.Guarded c (Mutex.init c) l)
+    (a b : Nat) (hab : a ≠ b) (t t' : Nat) :
+    ∀ x ∈ (agentStep c wf (arun c wf (init c) l) t a).1.acc, ∀ y ∈ (agentStep c wf (arun c wf (init c) l) t' b).1.acc,
+      x.node ≠ y.node := by
+  have hs := Mutex.reachable_of_run c l hg
+  exact step_no_conflict wf (repr_run wf hwf l hg) (Mutex.inv_reachable hs) (by have := queue_length_le hs; omega) hab t t'
+
+/- in `pA` the owner's next segment touches n2.0 and n1.0; a new requester (agent 2 in its second round would be at `top`) … the
+   only other agents are parked: their next activities touch nothing -/
+example : (agentStep cfgEx 3 (arun cfgEx 3 (init cfgEx) runA) 1 1).1.acc = [] ∧
+    (agentStep cfgEx 3 (arun cfgEx 3 (init cfgEx) runA) 2 2).1.acc = [] := by decide
+/- scenario `runN` before 2's publishing CAS: owner-to-be 1 is at `build` (no access), requester 2 writes its own node -/
+example : (arun cfgEx 3 (init cfgEx) (runN.take 7)).pc 1 = Pc.build ∧
+    (agentStep cfgEx 3 (arun cfgEx 3 (init cfgEx) (runN.take 7)) 1 1).1.acc = [] ∧
+    (agentStep cfgEx 3 (arun cfgEx 3 (init cfgEx) (runN.take 7)) 2 2).1.acc = [⟨2, Seen.node 2 0, Field.next, true⟩] := by
+  decide
+
+/-! ### AS-IS negative witness: the pinned commit's `subscribe` (before a810fc1)
+
+`subscribe` published the awaiter with `aw->subscribe(_requests)` and then read `aw->_next` again to find out whether the
+mutex had been free.  `agentStepAsIs` is that variant of the step (`recheck`: the re-read still to be done by the publishing
+thread).  Two coroutine contenders; thread 1 publishes the request of coroutine 1 behind owner 0; owner 0 runs `unlock`
+completely (fast path fails, exchange, loop, pop, resume) and coroutine 1 — resumed on thread 0 — enters its critical section
+(its awaiter is gone); then thread 1 continues `subscribe` and reads `_next` of the dead awaiter: `viol`.  (It reads null,
+which `unlock` stored there, and goes on as if it had found the mutex free: pc `build` — the double resume of DESIGN §6
+row 10.)  This shows that the safety theorems above are not vacuous: the flag is reachable for a step function that
+violates them. -/
+
+def cfg2 : Cfg := { n := 2, kind := fun _ => AKind.coro, rounds := fun _ => [{ fl := Flavour.co, rel := Rel.x }] }
+def asisRun : List (Nat × Nat) := [(0,0), (1,1), (1,1), (1,1), (0,0), (0,0), (0,0), (0,0), (0,1), (1,1)]
+
+theorem c07_asis_touch_after_resume_ptr :
+    (arunAsIs cfg2 2 { s := init cfg2 } asisRun).s.viol = true ∧
+    (arunAsIs cfg2 2 { s := init cfg2 } (asisRun.take 9)).s.viol = false ∧
+    (arunAsIs cfg2 2 { s := init cfg2 } (asisRun.take 9)).s.live (1, 0) = false ∧
+    (arunAsIs cfg2 2 { s := init cfg2 } (asisRun.take 9)).recheck 1 = some (1, (1, 0)) ∧
+    (arunAsIs cfg2 2 { s := init cfg2 } asisRun).s.acc = [⟨1, Seen.node 1 0, Field.next, false⟩] ∧
+    (arunAsIs cfg2 2 { s := init cfg2 } asisRun).s.pc 1 = Pc.build := by decide
+
+/- the repaired step under the same activity list: no violation, coroutine 1 simply finished its round -/
+example : Mutex.Guarded cfg2 (Mutex.init cfg2) asisRun ∧ (arun cfg2 2 (init cfg2) asisRun).viol = false ∧
+    (arun cfg2 2 (init cfg2) asisRun).pc 1 = Pc.relDone := by decide
+
+end Cocls.MutexPtr
